@@ -11,6 +11,31 @@ TH = "src/include/stir/thresholding.h"
 OSSPS = "src/iterative/OSSPS/OSSPSReconstruction.cxx"
 ITER = (r"for \(forw_iterT iter = begin;", "for (float* iter = begin;", 1)
 
+def _lambda_to_ops(txt, v1, v2):
+    """boost lambda expression over _1/_2 (+ - * / and plain operands) -> nested K_op(...) text"""
+    import ast
+    py = re.sub(r"(?<=[\d.])F\b", "", txt)
+    tree = ast.parse(py.strip(), mode="eval").body
+    ops = {ast.Mult: "OP_MUL", ast.Div: "OP_DIV", ast.Add: "OP_ADD", ast.Sub: "OP_SUB"}
+
+    def emit(n):
+        if isinstance(n, ast.BinOp) and type(n.op) in ops:
+            return "K_op(%s, %s, %s)" % (ops[type(n.op)], emit(n.left), emit(n.right))
+        if isinstance(n, ast.Name):
+            return {"_1": v1, "_2": v2}.get(n.id, n.id)
+        if isinstance(n, ast.Constant) and isinstance(n.value, (int, float)):
+            return "%sF" % (repr(float(n.value)))
+        raise extract.ExtractionError("update_estimate: lambda expression '%s' uses something other than + - * / over _1, _2, names and numbers" % txt)
+    return emit(tree)
+
+
+def _transform(m):
+    in1, in2, outv, lam = m.group(1), m.group(2), m.group(3), m.group(4)
+    if in2 is None and "_2" in lam:
+        raise extract.ExtractionError("update_estimate: std::transform with one input range uses _2")
+    return "V_%s = %s;" % (outv, _lambda_to_ops(lam, "V_" + in1, "V_" + (in2 or in1)))
+
+
 KERNELS = [
     dict(name="K_threshold_upper_lower", file=TH, cxx_name="stir::threshold_upper_lower",
          func=r"threshold_upper_lower\(forw_iterT begin, forw_iterT end, const elemT new_min, const elemT new_max\)",
@@ -40,6 +65,27 @@ KERNELS = [
                 (r"this->subiteration_num\b|this->get_subiteration_num\(\)", "subiteration_num", (1, 3)),
                 (r"this->start_subiteration_num\b|this->get_start_subiteration_num\(\)", "start_subiteration_num", (0, 3)),
                 (r"this->num_subsets\b|this->get_num_subsets\(\)", "num_subsets", (1, 2))]),
+    dict(name="K_ossps_update_voxel", file=OSSPS, cxx_name="OSSPSReconstruction<TargetT>::update_estimate: from the multiplication with num_subsets to the additive update, for one voxel (statement kernel)",
+         func=r"OSSPSReconstruction<TargetT>::update_estimate\(TargetT& current_image_estimate\)",
+         span=(r"std::transform\(numerator_ptr->begin_all\(\), numerator_ptr->end_all\(\), numerator_ptr->begin_all\(\), _1 \* this->num_subsets\);", r"current_image_estimate \+= \*numerator_ptr;"),
+         c_header="void K_ossps_update_voxel(const _Bool recompute_penalty_term_in_denominator, const _Bool prior_is_zero, const int subiteration_num, const int start_subiteration_num, "
+                  "const int num_subsets, const _Bool write_update_image)", loops=0,
+         rules=[(r"info\(boost::format\((?:\"[^\"]*\"|[^;\"])*\);", "", 5),
+                (r"if \(write_update_image\)\s*\{.*?\n    \}", "", 1),
+                (r"unique_ptr<TargetT> work_image_ptr\(current_image_estimate\.get_empty_copy\(\)\);", "float V_work_image_ptr = K_fresh_value();", 1),
+                (r"static_cast<PriorWithParabolicSurrogate<TargetT>&>\(\*get_prior_ptr\(\)\)\s*\.parabolic_surrogate_curvature\(\*work_image_ptr, current_image_estimate\);",
+                 "V_work_image_ptr = K_op(OP_CURV, V_current_image_estimate, 0.F);", 1),
+                (r"this->num_subsets\b", "num_subsets", (1, 3)),
+                # std::transform(in1.begin_all(), in1.end_all(), [in2.begin_all(),] out.begin_all(), <boost lambda over _1, _2>): the lambda's arithmetic
+                # is translated operator by operator into logged operations on this voxel's values
+                (r"std::transform\(\s*(\w+)->begin_all\(\),\s*\1->end_all\(\),\s*(?:(\w+)->begin_all\(\),\s*)?(\w+)->begin_all\(\),\s*([^;]*?)\);", _transform, (3, 8)),
+                (r"\*work_image_ptr = \*precomputed_denominator_ptr;", "V_work_image_ptr = V_precomputed_denominator_ptr;", 1),
+                (r"\*precomputed_denominator_ptr = \*work_image_ptr;", "V_precomputed_denominator_ptr = V_work_image_ptr;", 1),
+                (r"threshold_min_to_small_positive_value\(work_image_ptr->begin_all\(\), work_image_ptr->end_all\(\), 10\.E-6F\);", "V_work_image_ptr = K_op(OP_THRESH, V_work_image_ptr, 10.E-6F);", 1),
+                (r"current_image_estimate \+= \*numerator_ptr;", "V_current_image_estimate = K_op(OP_ADD, V_current_image_estimate, V_numerator_ptr);", 1),
+                (r"const float relaxation_parameter\s*=\s*this->relaxation_parameter / \(1 \+ this->relaxation_gamma \* \(([^;]*)\)\);", r"const float relaxation_parameter = K_relax_value(\1);", 1),
+                (r"this->get_subiteration_num\(\)|this->subiteration_num\b", "subiteration_num", (1, 3)), (r"this->get_start_subiteration_num\(\)", "start_subiteration_num", (1, 2)),
+                (r"this->num_subsets\b", "num_subsets", (0, 2)), (r"this->objective_function_sptr->prior_is_zero\(\)", "prior_is_zero", 1)]),
     dict(name="K_ossps_clamp_tail", file=OSSPS, cxx_name="OSSPSReconstruction<TargetT>::update_estimate: block after the additive update ('now threshold image')",
          func=r"OSSPSReconstruction<TargetT>::update_estimate\(TargetT& current_image_estimate\)",
          span=(r"\{\s*const float current_min\b", r"\n  \}"),
@@ -96,6 +142,9 @@ def jobs(tier, gen_dir):
     for k in ("K_threshold_upper_lower", "K_threshold_upper", "K_threshold_lower"):
         enforce(k)
     enforce("K_ossps_clamp_tail", repl=["K_threshold_upper_lower", "K_threshold_upper", "K_threshold_lower", "K_min_elem", "K_max_elem"], lc=False)
+    enforce("K_ossps_update_voxel", lc=False, object_bits=10)
+    out.append(Job("c08/canary/K_ossps_update_voxel", HARNESS, "h_K_ossps_update_voxel", enforce="K_ossps_update_voxel", kernels=["K_ossps_update_voxel"], kind="canary",
+                   defines={"CANARY_K_ossps_update_voxel": None}, expect_fail=r"K_ossps_update_voxel\.postcondition", no_base_flags=True, timeout=300, object_bits=10))
     # strictly positive denominator: real bodies of threshold_min_to_small_positive_value, min_positive_element, threshold_lower and the
     # std::fill model, sequences of at most 6 elements, loops unwound (BOUNDED stand-in: "no NaN anywhere" needs a quantifier)
     out.append(Job("c08/bounded_positive_denominator", HARNESS, "h_bounded_positive_denominator", kind="lemma",
@@ -129,6 +178,17 @@ import subprocess
 
 
 def replay(job, o, workroot, repo):
+    if "update_voxel" in job.name:
+        from vlib import native
+        exe = os.path.join(workroot, "c08_ossps_replay")
+        if not os.path.exists(exe):
+            exe, info = native.build(repo, os.path.join(VERIF, "replay", "c08_ossps.cpp"), exe)
+            if not exe:
+                return {"status": "unavailable", "detail": "replay driver did not build: " + info}
+        st, detail = native.run(exe, ["formula"], timeout=900)
+        if st == "confirmed":
+            return {"status": "confirmed", "detail": detail, "command": "c08_ossps_replay formula", "from_verifier_counterexample": False}
+        return {"status": "not-reproduced", "detail": "c08_ossps_replay formula: first sub-iteration of 3 OSSPS configurations against the formula (" + str(detail)[:120] + ")"}
     if "relaxation" in job.name:
         # resume clause: a run resumed at sub-iteration k+1 must continue the schedule of the uninterrupted run
         from vlib import native
